@@ -319,7 +319,24 @@ Section Move.
         | None => (v, set_unm s)
         | Some fp =>
             match lk s fp with
-            | None => (JNull, s)
+            | None =>
+                (* the file is not there.  Either the stage did not create
+                   it (null), or a post-processing run that was interrupted
+                   after the rename and before the link back has already
+                   moved it: then its place under outs/ is taken, and the
+                   link back is made now *)
+                let outp := (ps ++ outrel) ++ [fname] in
+                match lk s outp with
+                | None => (JNull, s)
+                | Some _ =>
+                    match lk s (dirname fp) with
+                    | Some NDir =>
+                        (JStr (render outp),
+                         with_fs s (fs_set fp (NLink (rel_path (dirname fp) outp)) (fs s)))
+                    | None => (JNull, s)
+                    | Some _ => (JNull, set_unm s)
+                    end
+                end
             | Some (NLink tgt) =>
                 let (s1, ok) := mkdirall outrel s in
                 if ok then copy_symlink outrel fname v fp tgt s1
